@@ -160,6 +160,28 @@ def run(ctx: core.Ctx):
                 ref = S if form == "1d" else np.concatenate([S, S]).reshape(2, -1)
                 if A.shape != ref.shape or not np.allclose(A, ref, rtol=0, atol=1e-15, equal_nan=True):
                     ctx.violation(f"{k}.membership/array-{form}", {"k": k, "p": cases[0]["p"], "h": cases[0]["h"], "palette": palette}, ref.tolist(), A.tolist(), note="array evaluation differs from element-by-element evaluation")
+            # zero has two binary64 representatives: every parameter (and point) that is 0 is also given as -0.0, in every sign
+            # pattern of up to two zeros - the documented definition cannot tell them apart
+            zeros = [j for j, v in enumerate(p) if v == 0.0] if k != "Discrete" else []
+            if zeros:
+                pats = [[-0.0] * len(zeros)]
+                if len(zeros) >= 2:
+                    pats += [[0.0, -0.0] + [0.0] * (len(zeros) - 2), [-0.0, 0.0] + [-0.0] * (len(zeros) - 2)]
+                for pat in pats:
+                    q = list(p)
+                    for j, z in zip(zeros, pat):
+                        q[j] = z
+                    try:
+                        t2 = build(fl, k, q, h)
+                        A = np.array([float(t2.membership(-0.0 if v == 0.0 else v)) for v in xs])
+                    except Exception as ex:
+                        ctx.violation(f"{k}.membership/negative-zero-raises", {"k": k, "p": [repr(v) for v in q], "h": h, "palette": palette}, "values", f"{type(ex).__name__}: {ex}")
+                        continue
+                    ctx.count()
+                    if not np.allclose(A, S, rtol=0, atol=1e-15, equal_nan=True):
+                        i0 = int(np.flatnonzero(~(np.isclose(A, S, rtol=0, atol=1e-15, equal_nan=True)))[0])
+                        ctx.violation(f"{k}.membership/negative-zero-parameter", {"k": k, "p": [repr(v) for v in q], "h": h, "x": repr(xs[i0]), "palette": palette}, float(S[i0]), float(A[i0]),
+                                      note=f"{k}{tuple(q)} differs from {k}{tuple(p)} at x={xs[i0]!r}: the sign of a zero parameter changes the membership")
             # the caller's own array, updated in place between two evaluations (the positions of NaN and of every breakpoint move)
             try:
                 buf = X.copy()
@@ -217,6 +239,11 @@ def run(ctx: core.Ctx):
 
 
 def replay(v) -> int:
+    if "f" not in v.get("case", {}):
+        import json as _j
+        print(_j.dumps(v["case"])[:1500]); print("expected", v.get("expected"), "observed", v.get("observed"), "|", v.get("note"))
+        print("re-run ./check C03 for the verdict on the current tree")
+        return 1
     fl = core.import_fuzzylite()
     c = v["case"]
     if "x" not in c:
